@@ -49,19 +49,24 @@ MutateWhy(G, pre, post) ==
   ELSE "OK"
 
 (* ------------------------------------------------------------------ C13 *)
-(* one result res of inserting ins into host                               *)
+(* one result res of inserting ins into host.  Node identity is the node   *)
+(* id.  "res contains the inserted tree": some subtree of res has ins as   *)
+(* a tree prefix with the same ids (Trees!IsTreePrefixIds), i.e. all nodes *)
+(* of ins are there, in the same arrangement; open leaves of ins are holes *)
+(* and may have been expanded, nothing else of ins may differ.             *)
+OccursIn(ins, res) == \E s \in SubtreeSet(res) : s.id = ins.id /\ IsTreePrefixIds(ins, s)
 InsertStep(G, host, ins, res) ==
   /\ ValidTree(G, res)
   /\ res.nt = host.nt /\ res.n = host.n
   /\ NodeSet(host) \subseteq NodeSet(res)        \* every node of host: same id, same label
   /\ NodeSet(ins) \subseteq NodeSet(res)         \* every node of ins: same id, same label
-  /\ ins \in SubtreeSet(res)                     \* ... and ins occurs as a subtree
+  /\ OccursIn(ins, res)                          \* ... in the same arrangement
 InsertWhy(G, host, ins, res) ==
   IF ~ValidTree(G, res) THEN "invalid-tree"
   ELSE IF ~(res.nt = host.nt /\ res.n = host.n) THEN "root-changed"
   ELSE IF ~(NodeSet(host) \subseteq NodeSet(res)) THEN "host-node-lost"
   ELSE IF ~(NodeSet(ins) \subseteq NodeSet(res)) THEN "inserted-node-lost"
-  ELSE IF ins \notin SubtreeSet(res) THEN "inserted-tree-not-a-subtree"
+  ELSE IF ~OccursIn(ins, res) THEN "inserted-tree-rearranged"
   ELSE "OK"
 
 (* ------------------------------------------------------------------ C14 *)
